@@ -1,4 +1,235 @@
-// Types and export histories (filled in by later checks).
-pub fn run(_f: &[String]) -> Result<Vec<String>, String> {
-    Err("unknown command".to_owned())
+// A universe of exportable types (shared files, mutual dependencies, cycles, generics with two
+// instantiations, directory / file / nested / `../` export_to forms, a non-exportable root) and
+// commands to describe them and to run export histories on a real directory tree.
+#![allow(dead_code)]
+use std::panic::{catch_unwind, AssertUnwindSafe};
+use std::path::{Path, PathBuf};
+
+use ts_rs::{ExportError, TypeVisitor, TS};
+
+/// shares `shared.ts` with B; depends on B (same file) and on C
+#[derive(TS)]
+#[ts(export_to = "shared.ts")]
+pub struct A {
+    b: Option<B>,
+    c: Vec<C>,
+}
+
+/// doc comment of B
+#[derive(TS)]
+#[ts(export_to = "shared.ts")]
+pub struct B {
+    x: i32,
+    d: Box<D>,
+}
+
+/// default location; cycle C -> D -> C
+#[derive(TS)]
+pub struct C {
+    d: Option<Box<D>>,
+    e: E,
+}
+
+/// directory form
+#[derive(TS)]
+#[ts(export_to = "sub/")]
+pub struct D {
+    c: Vec<C>,
+    g: G<i32>,
+}
+
+/// escapes the base directory by one level and comes back
+#[derive(TS)]
+#[ts(export_to = "../out/nested/E.ts")]
+pub enum E {
+    Unit,
+    New(String),
+}
+
+/// generic with a default; two instantiations in the universe
+#[derive(TS)]
+#[ts(export_to = "sub/generic/G.ts")]
+pub struct G<T, U = F> {
+    t: T,
+    u: Option<U>,
+    f: F,
+}
+
+#[derive(TS)]
+pub struct F {
+    v: (i32, String),
+}
+
+#[derive(TS)]
+pub struct U1 {
+    g: G<i32>,
+    #[ts(inline)]
+    f: F,
+}
+
+#[derive(TS)]
+#[ts(export_to = "shared.ts")]
+pub struct U2 {
+    g: G<C, A>,
+    #[ts(flatten)]
+    f: F,
+}
+
+/// climbs above the file-system root
+#[derive(TS)]
+#[ts(export_to = "../../../../../../../../../../../../../../../../up.ts")]
+pub struct Up {
+    x: i32,
+}
+
+/// depends on Up: exporting it with dependencies fails half-way
+#[derive(TS)]
+pub struct H {
+    f: F,
+    up: Up,
+    c: C,
+}
+
+/// the same file name in another directory as C
+#[derive(TS)]
+#[ts(export_to = "sub/C.ts", rename = "C2")]
+pub struct C2 {
+    c: C,
+}
+
+struct Rec(Vec<String>);
+impl TypeVisitor for Rec {
+    fn visit<T: TS + 'static + ?Sized>(&mut self) {
+        // `+` marks exportable types
+        self.0.push(format!(
+            "{}{}",
+            if T::output_path().is_some() { "+" } else { "" },
+            std::any::type_name::<T>()
+        ));
+    }
+}
+
+fn opt<T: ToString>(x: Option<T>) -> String {
+    x.map(|x| x.to_string()).unwrap_or_else(|| "-".to_owned())
+}
+
+fn guard<F: FnOnce() -> String>(f: F) -> String {
+    catch_unwind(AssertUnwindSafe(f)).unwrap_or_else(|_| "\u{0}PANIC".to_owned())
+}
+
+fn info<T: TS + 'static + ?Sized>() -> Vec<String> {
+    let mut rec = Rec(vec![]);
+    T::visit_dependencies(&mut rec);
+    vec![
+        std::any::type_name::<T>().to_owned(),
+        guard(|| T::ident()),
+        opt(T::output_path().map(|p| p.to_string_lossy().into_owned())),
+        guard(|| format!("{}export {}", T::DOCS.unwrap_or(""), T::decl())),
+        rec.0.join("|"),
+        std::any::type_name::<T::WithoutGenerics>().to_owned(),
+        guard(|| match T::export_to_string() {
+            Ok(s) => s,
+            Err(e) => format!("\u{0}ERR {e:?}"),
+        }),
+        opt(T::default_output_path().map(|p| p.to_string_lossy().into_owned())),
+        guard(|| T::name()),
+    ]
+}
+
+fn classify(r: std::thread::Result<Result<(), ExportError>>) -> String {
+    match r {
+        Ok(Ok(())) => "OK".to_owned(),
+        Ok(Err(ExportError::CannotBeExported(_))) => "ERR CannotBeExported".to_owned(),
+        Ok(Err(ExportError::Io(e))) => format!("ERR Io {:?}", e.kind()),
+        Ok(Err(e)) => format!("ERR {e:?}"),
+        Err(_) => "PANIC".to_owned(),
+    }
+}
+
+fn op<T: TS + 'static + ?Sized>(kind: &str, dir: &str) -> String {
+    classify(catch_unwind(AssertUnwindSafe(|| match kind {
+        "export" => T::export(),
+        "export_all" => T::export_all(),
+        _ => T::export_all_to(dir),
+    })))
+}
+
+macro_rules! universe {
+    ($($t:ty),* $(,)?) => {
+        fn all_info() -> Vec<Vec<String>> { vec![$(info::<$t>()),*] }
+        fn run_op(ix: usize, kind: &str, dir: &str) -> String {
+            let mut k = 0usize;
+            $( if k == ix { return op::<$t>(kind, dir); } k += 1; )*
+            let _ = k;
+            "ERR no such type".to_owned()
+        }
+    };
+}
+
+universe!(
+    A, B, C, D, E, F, G<i32>, G<C, A>, G<ts_rs::Dummy, ts_rs::Dummy>, U1, U2, Up, H, C2,
+    Vec<A>, Option<B>, i32, (C, D), std::collections::HashMap<String, E>, Box<A>,
+);
+
+fn snapshot(root: &Path, rel: &Path, out: &mut Vec<String>) {
+    let mut entries: Vec<PathBuf> = match std::fs::read_dir(root.join(rel)) {
+        Ok(rd) => rd.filter_map(|e| e.ok()).map(|e| e.file_name().into()).collect(),
+        Err(_) => return,
+    };
+    entries.sort();
+    for name in entries {
+        let r = rel.join(&name);
+        let p = root.join(&r);
+        if p.is_dir() {
+            out.push(format!("D {}", r.to_string_lossy()));
+            snapshot(root, &r, out);
+        } else {
+            let content = std::fs::read(&p).map(|b| String::from_utf8_lossy(&b).into_owned()).unwrap_or_default();
+            out.push(format!("F {}\u{1}{}", r.to_string_lossy(), content));
+        }
+    }
+}
+
+pub fn run(f: &[String]) -> Result<Vec<String>, String> {
+    let arg = |i: usize| f.get(i).cloned().ok_or("missing argument".to_owned());
+    match f[0].as_str() {
+        // one line of `\u{2}`-separated fields per type
+        "info" => Ok(all_info().into_iter().map(|v| v.join("\u{2}")).collect()),
+        "env" => {
+            if arg(1)? == "-" {
+                std::env::remove_var("TS_RS_EXPORT_DIR");
+            } else {
+                std::env::set_var("TS_RS_EXPORT_DIR", arg(1)?);
+            }
+            Ok(vec![])
+        }
+        "reset" => {
+            ts_rs::verif::reset_registry();
+            Ok(vec![])
+        }
+        "op" => Ok(vec![run_op(arg(2)?.parse().map_err(|_| "index")?, &arg(1)?, &f.get(3).cloned().unwrap_or_default())]),
+        "mkdir" => std::fs::create_dir_all(arg(1)?).map(|_| vec![]).map_err(|e| e.to_string()),
+        "mkfile" => {
+            let p = PathBuf::from(arg(1)?);
+            if let Some(d) = p.parent() {
+                std::fs::create_dir_all(d).map_err(|e| e.to_string())?;
+            }
+            std::fs::write(&p, arg(2)?).map(|_| vec![]).map_err(|e| e.to_string())
+        }
+        "rm" => {
+            let p = PathBuf::from(arg(1)?);
+            if p.is_dir() {
+                std::fs::remove_dir_all(&p).map_err(|e| e.to_string())?;
+            } else if p.exists() {
+                std::fs::remove_file(&p).map_err(|e| e.to_string())?;
+            }
+            Ok(vec![])
+        }
+        "snapshot" => {
+            let mut out = vec![];
+            snapshot(Path::new(&arg(1)?), Path::new(""), &mut out);
+            Ok(out)
+        }
+        _ => Err("unknown command".to_owned()),
+    }
 }
